@@ -508,6 +508,49 @@ theorem history_eq_fresh_density (N : Nat) (directed : Bool) (S0 damp : Sim) (nl
   obtain ⟨θ, _, rfl⟩ := h0
   exact history_eq_fresh N directed S0 damp nl θ ops s' h
 
+/-- after any history the stored similarity is non-negative (it is an absolute value): the
+hypothesis `hS` of the density theorems holds for every reachable object -/
+theorem stored_similarity_nonneg (N : Nat) (directed : Bool) (S0 damp : Sim) (nl : Bool) (θ : Rat)
+    (ops : List Op) (s' : Net)
+    (h : (mkThreshold N directed S0 damp nl θ).run ops = some s') (i j : Nat) : 0 ≤ s'.S i j := by
+  have e := history_eq_fresh N directed S0 damp nl θ ops s' h
+  have : s'.S = absSim (lastSim S0 ops) := by
+    rw [e]; simp [mkThreshold, Net.setThreshold, blank]
+  rw [this]
+  exact (absSim_spec _ i j).1
+
+/-- **the density clause for every reachable object, as executed**: after any history of setters and
+similarity re-derivations, `set_link_density(ρ)` (index evaluated in IEEE double) leaves a network whose
+reported density is at most `ρ + 2⁻⁵² + 2⁻¹⁰⁶`; only the range of the distance weight is assumed -/
+theorem density_request_after_history (N : Nat) (directed : Bool) (S0 damp : Sim) (nl : Bool)
+    (θ : Rat) (ops : List Op) (s s' : Net) (ρ d : Rat)
+    (hd : ∀ i j, i < N → j < N → damp i j ≤ 1)
+    (h0 : 0 ≤ ρ) (h1 : ρ ≤ 1)
+    (hrun : (mkThreshold N directed S0 damp nl θ).run ops = some s)
+    (h : s.setLinkDensity (ieeeIndex ρ (offDiag s.S s.N).length) = some s')
+    (hden : s'.density = some d) : d ≤ ρ + ieeeSlack := by
+  have e := history_eq_fresh N directed S0 damp nl θ ops s hrun
+  have hN : s.N = N := by rw [e]; simp [mkThreshold, Net.setThreshold, blank]
+  have hdamp : s.damp = damp := by rw [e]; simp [mkThreshold, Net.setThreshold, blank]
+  have hS := stored_similarity_nonneg N directed S0 damp nl θ ops s hrun
+  have hb := (set_link_density_ieee s s' ρ (fun i j _ _ => hS i j)
+    (fun i j hi hj => by rw [hdamp]; exact hd i j (hN ▸ hi) (hN ▸ hj)) h0 h1 h).1
+  simp only [Net.setLinkDensity, Option.map_eq_some_iff] at h
+  obtain ⟨θ', _, rfl⟩ := h
+  simp only [Net.setThreshold] at hden hb
+  obtain ⟨h2, hmul⟩ := density_spec _ _ _ hden
+  have hlen := length_offDiag s.S s.N
+  generalize (offDiag s.S s.N).length = len at *
+  generalize nnz (thresholdAdjacency (weighted s.nonLocal s.S s.damp) θ' s.N) = L at *
+  have hlenR : (len : Rat) + (s.N : Rat) = (s.N : Rat) * (s.N : Rat) := by exact_mod_cast hlen
+  have hNR : (2 : Rat) ≤ (s.N : Rat) := by exact_mod_cast h2
+  have hM : (len : Rat) = (s.N : Rat) * ((s.N : Rat) - 1) := by linarith
+  have hpos : (0 : Rat) < (len : Rat) := by
+    rw [hM]; exact mul_pos (by linarith) (by linarith)
+  rw [← hM] at hmul
+  have : d * (len : Rat) ≤ (ρ + ieeeSlack) * (len : Rat) := by linarith
+  exact le_of_mul_le_mul_right this hpos
+
 /-- without re-derivations the similarity is the constructor's -/
 theorem lastSim_of_no_resim (S0 : Sim) (ops : List Op)
     (h : ∀ o ∈ ops, ∀ S1, o ≠ Op.resim S1) : lastSim S0 ops = S0 := by
